@@ -139,8 +139,18 @@ class SerialPool:
     calls = 0
     unordered_calls = 0
 
-    def __init__(self, *a, **k):
-        pass
+    def __init__(self, processes=None, initializer=None, initargs=(), maxtasksperchild=None, context=None):
+        # the argument checks of multiprocessing.pool.Pool.__init__
+        if processes is None:
+            processes = os.cpu_count() or 1
+        if processes < 1:
+            raise ValueError("Number of processes must be at least 1")
+        if maxtasksperchild is not None and (not isinstance(maxtasksperchild, int) or maxtasksperchild <= 0):
+            raise ValueError("maxtasksperchild must be a positive int or None")
+        if initializer is not None and not callable(initializer):
+            raise TypeError("initializer must be a callable")
+        if initializer is not None:
+            initializer(*initargs)
 
     def __enter__(self):
         return self
